@@ -118,6 +118,14 @@ func plainCols(tb *Table) []string {
 
 func qcol(n string) string { return `"` + n + `"` }
 
+// qcolAny quotes a column name inside an expression the way SQLite accepts it: mostly "name", sometimes [name].
+func qcolAny(t *rapid.T, n string) string {
+	if rapid.IntRange(0, 3).Draw(t, "bracket") == 0 && !strings.ContainsAny(n, "[]") {
+		return "[" + n + "]"
+	}
+	return qcol(n)
+}
+
 // GenTable draws one table (without foreign keys; those need the whole schema).
 func GenTable(t *rapid.T, name string, o Opts) Table {
 	tb := Table{Name: name}
@@ -149,7 +157,7 @@ func GenTable(t *rapid.T, name string, o Opts) Table {
 				typ = "numeric(10,2)" // a type with a comma of its own
 			}
 			expr := rapid.SampledFrom([]string{"%s", "%s || 'x'", "coalesce(%s, 0) + 1", "lower(%s)"}).Draw(t, "genexpr")
-			tb.Cols = append(tb.Cols, Column{Name: cn, Type: typ, Gen: fmt.Sprintf(expr, qcol(src)), GenStored: rapid.Bool().Draw(t, "stored")})
+			tb.Cols = append(tb.Cols, Column{Name: cn, Type: typ, Gen: fmt.Sprintf(expr, qcolAny(t, src)), GenStored: rapid.Bool().Draw(t, "stored")})
 			// a second generated column whose name is a prefix of the first one's
 			if !used["g"] && rapid.IntRange(0, 2).Draw(t, "gen2") == 0 {
 				used["g"] = true
@@ -211,7 +219,7 @@ func genIndex(t *rapid.T, tb *Table, name string, o Opts) Index {
 	for _, c := range cols[:np] {
 		p := Part{Col: c, Desc: rapid.IntRange(0, 3).Draw(t, "desc") == 0}
 		if !o.NoExprIndex && rapid.IntRange(0, 7).Draw(t, "exprpart") == 0 {
-			p = Part{Expr: "lower(" + qcol(c) + ")", Desc: p.Desc}
+			p = Part{Expr: "lower(" + qcolAny(t, c) + ")", Desc: p.Desc}
 		}
 		ix.Parts = append(ix.Parts, p)
 	}
